@@ -65,7 +65,7 @@ fn run_fix(item: &serde_json::Value, out: &mut Out) {
     out.flush();
 }
 
-fn run_cand(item: &serde_json::Value, out: &mut Out, max_cands: usize) {
+fn run_cand(item: &serde_json::Value, out: &mut Out, max_cands: usize, call_stride: u64) {
     let name = item["name"].as_str().unwrap_or("?").to_string();
     let input = item["input"].clone();
     let steps = item["steps"].as_u64().unwrap_or(6);
@@ -93,7 +93,19 @@ fn run_cand(item: &serde_json::Value, out: &mut Out, max_cands: usize) {
         let before = solution::verif::project(base.get_schedule());
         let hb = digest(&before);
         out.emit(&json!({"ev": "base", "name": name, "S": before}));
+        // hook H3: a sample of the inner modification calls of the swaps, as (pre, call, post) events
+        solution::verif::enable();
+        solution::verif::enable_calls(call_stride);
         let cands = guarded(|| neighborhood.neighbors_of(&base).collect::<Vec<ScheduleWithInfo>>());
+        solution::verif::disable_calls();
+        let inner = solution::verif::drain();
+        solution::verif::disable();
+        let _ = solution::verif::take_stage_schedules();
+        for (k, e) in inner.iter().enumerate() {
+            if k < 40 {
+                out.emit_raw(&format!("{{\"ev\":\"inner\",\"name\":{},\"call\":{}}}", serde_json::Value::String(name.clone()), e));
+            }
+        }
         let ha = digest(&solution::verif::project(base.get_schedule()));
         match cands {
             Ok(cands) => {
@@ -139,7 +151,7 @@ pub fn run(opts: &Opts) -> i32 {
         if mode == "fix" {
             run_fix(item, &mut out);
         } else {
-            run_cand(item, &mut out, max_cands);
+            run_cand(item, &mut out, max_cands, opts.num("call-stride", 97));
         }
     }
     0
